@@ -234,6 +234,7 @@ class StmtMixin:
         self.assign_target(target, v, st, node)
 
     def unpack(self, v: Val, n, st, node):
+        v = self.deopt(v, st, node)  # unpacking None is a TypeError
         if v.is_py and isinstance(v.py, (tuple, list)):
             if len(v.py) != n:
                 raise Unsupported("unpack arity", node)
@@ -553,7 +554,8 @@ class StmtMixin:
             sub.pc.append(guard)
             for f in info.facts(i):
                 sub.pc.append(f)
-            conds = [z3bool(self.cond(c, sub)) for c in g.ifs]
+            conds = [self.cond(c, sub) for c in g.ifs]
+            conds = [z3bool(c) for c in conds if c is not True]  # a filter that is the constant True is no filter
             for c in conds:
                 sub.pc.append(c)
             body = self.eval(node.elt, sub)
@@ -591,6 +593,17 @@ class StmtMixin:
             st.assume(z3.ForAll([j], z3.Implies(z3.And(j >= 0, j < z3.Length(r)), z3.Exists([i], z3.And(guard, c, r[j] == lift(body))))))
             # every passing source position is represented
             st.assume(z3.ForAll([i], z3.Implies(z3.And(guard, c), z3.Contains(r, z3.Unit(lift(body))))))
+            if getattr(self.c, "comp_positions", False):
+                # order-preserving characterisation with Skolem functions: src(j) = the source position of result position j
+                # (strictly increasing), at(i) = the result position of the passing source position i
+                srcp = z3.Function(fresh_name("srcpos"), z3.IntSort(), z3.IntSort())
+                resp = z3.Function(fresh_name("respos"), z3.IntSort(), z3.IntSort())
+                k = z3.Int(fresh_name("ck"))
+                inr = lambda v_: z3.And(v_ >= 0, v_ < z3.Length(r))  # noqa: E731
+                sub_ = lambda term, v_: z3.substitute(term, (i, v_))  # noqa: E731
+                st.assume(z3.ForAll([j], z3.Implies(inr(j), z3.And(sub_(z3.And(guard, c), srcp(j)), r[j] == sub_(lift(body), srcp(j))))))
+                st.assume(z3.ForAll([j, k], z3.Implies(z3.And(inr(j), inr(k), j < k), srcp(j) < srcp(k))))
+                st.assume(z3.ForAll([i], z3.Implies(z3.And(guard, c), z3.And(inr(resp(i)), srcp(resp(i)) == i))))
         return Val(T.List(et), r)
 
     # ---- statement execution ---------------------------------------------------------------------------------
